@@ -1,6 +1,7 @@
 package checks
 
 import (
+	"strconv"
 	"context"
 	"encoding/json"
 	"fmt"
@@ -99,7 +100,9 @@ func c09TextMatches() []carddav.TextMatch {
 func c09PropFilters(full bool) []carddav.PropFilter {
 	var out []carddav.PropFilter
 	tms := c09TextMatches()
-	params := [][]carddav.ParamFilter{nil, {{Name: "TYPE", IsNotDefined: true}}, {{Name: "X-é"}}, {{Name: "TYPE", TextMatch: &tms[7]}}, {{Name: "A", TextMatch: &tms[33]}, {Name: "B", IsNotDefined: true}}}
+	params := [][]carddav.ParamFilter{nil, {{Name: "TYPE", IsNotDefined: true}}, {{Name: "X-é"}}, {{Name: "TYPE", TextMatch: &tms[7]}}, {{Name: "A", TextMatch: &tms[33]}, {Name: "B", IsNotDefined: true}},
+		// an empty match text still is a text-match (with its match type and negate-condition)
+		{{Name: "TYPE", TextMatch: &carddav.TextMatch{Text: "", MatchType: carddav.MatchEquals, NegateCondition: true}}}, {{Name: "TYPE", TextMatch: &carddav.TextMatch{Text: ""}}}}
 	for _, n := range []string{"FN", "X-é"} {
 		out = append(out, carddav.PropFilter{Name: n, IsNotDefined: true}, carddav.PropFilter{Name: n, Test: carddav.FilterAllOf, IsNotDefined: true})
 		for _, t := range []carddav.FilterTest{"", carddav.FilterAnyOf, carddav.FilterAllOf} {
@@ -109,7 +112,7 @@ func c09PropFilters(full bool) []carddav.PropFilter {
 			for ti, tm := range tms {
 				out = append(out, carddav.PropFilter{Name: n, Test: t, TextMatches: []carddav.TextMatch{tm}})
 				if full || ti%5 == 0 {
-					out = append(out, carddav.PropFilter{Name: n, Test: t, TextMatches: []carddav.TextMatch{tm}, Params: params[1+ti%4]})
+					out = append(out, carddav.PropFilter{Name: n, Test: t, TextMatches: []carddav.TextMatch{tm}, Params: params[1+ti%6]})
 				}
 			}
 			step := 7
@@ -226,7 +229,7 @@ func c09JudgeB(c c09BCase) (clause, detail string) {
 	l := c12LayoutFor("")
 	b := &harness.CardBackend{Principal: l.Principal, HomeSet: l.HomeSet, Books: []carddav.AddressBook{{Path: l.Coll1}},
 		Objects: []carddav.AddressObject{{Path: "/u/c/k1/o1.vcf", ETag: "e", Card: harness.SampleCard("s")}}}
-	resp := harness.Serve(&carddav.Handler{Backend: b}, harness.Req{Method: "REPORT", Path: l.Coll1, Header: map[string]string{"Content-Type": "application/xml; charset=utf-8", "Depth": "1"}, Body: body})
+	resp := harness.Serve(&carddav.Handler{Backend: b}, harness.Req{Method: "REPORT", Path: l.Coll1, Header: map[string]string{"Content-Type": xmlContentTypes[len(body)%len(xmlContentTypes)], "Depth": "1"}, Body: body})
 	if resp.Panic != "" {
 		return "panic", resp.Panic
 	}
@@ -297,18 +300,22 @@ func init() {
 		pfs := c09PropFilters(full)
 		drs := []carddav.AddressDataRequest{{}, {AllProp: true}, {Props: []string{"FN"}}, {Props: []string{"FN", "X-é"}}}
 		limits := []int{-1, 0, 1, 7}
+		if strconv.IntSize == 64 {
+			big := int64(1) << 32
+			limits = append(limits, int(big), int(big+5), int(big*3+2))
+		}
 		var acases []c09ACase
 		k := 0
 		for _, t := range []carddav.FilterTest{"", carddav.FilterAnyOf, carddav.FilterAllOf} {
 			acases = append(acases, c09ACase{Kind: "query", Query: &carddav.AddressBookQuery{FilterTest: t}, Path: "/u/c/k1/"})
 			for _, pf := range pfs {
 				k++
-				acases = append(acases, c09ACase{Kind: "query", Query: &carddav.AddressBookQuery{FilterTest: t, PropFilters: []carddav.PropFilter{pf}, DataRequest: drs[k%4], Limit: limits[(k/4)%4]}, Path: "/u/c/k1/"})
+				acases = append(acases, c09ACase{Kind: "query", Query: &carddav.AddressBookQuery{FilterTest: t, PropFilters: []carddav.PropFilter{pf}, DataRequest: drs[k%4], Limit: limits[(k/4)%len(limits)]}, Path: "/u/c/k1/"})
 			}
 			for i := 0; i < len(pfs); i += 11 {
 				for j := 3; j < len(pfs); j += 29 {
 					k++
-					acases = append(acases, c09ACase{Kind: "query", Query: &carddav.AddressBookQuery{FilterTest: t, PropFilters: []carddav.PropFilter{pfs[i], pfs[j]}, DataRequest: drs[k%4], Limit: limits[(k/4)%4]}, Path: "/u/c/k1/"})
+					acases = append(acases, c09ACase{Kind: "query", Query: &carddav.AddressBookQuery{FilterTest: t, PropFilters: []carddav.PropFilter{pfs[i], pfs[j]}, DataRequest: drs[k%4], Limit: limits[(k/4)%len(limits)]}, Path: "/u/c/k1/"})
 				}
 			}
 		}
